@@ -50,6 +50,7 @@ namespace awkward {
     offsets_.clear();
     offsets_.append(0);
     content_.get()->clear();
+    begun_ = false;
   }
 
   const ContentPtr
